@@ -12,7 +12,7 @@ set_option linter.unusedSimpArgs false
 set_option linter.unusedVariables false
 
 namespace Jose.Props.C15
-open Jose Jose.Entity Jose.Json Jose.Jws Jose.Tables Jose.Props.C03
+open Jose Jose.Entity Jose.Json Jose.Jws Jose.Jwe Jose.Tables Jose.Props.C03
 
 /-- C15 (JWS): a protected parameter hides an unprotected one of the same name -/
 theorem precedence_jws (sig h : Json) (hh : jwsHdr sig = some h) (name : String) :
@@ -228,6 +228,217 @@ open Jose.Jwe in
     header are compressed alike, whatever their other headers say -/
 theorem enc_zip_only_protected (j j' : Json) (h : j.get? "protected" = j'.get? "protected") : zipOf j = zipOf j' := by
   simp only [zipOf, h]
+
+/-- the shared merged header (no recipient) names `n` as content encryption -/
+def NamesEnc (j : Json) (n : String) : Prop := ∃ hdr, jweHdr j none = some hdr ∧ hdr.getStr? "enc" = some n
+
+theorem jweHdr_congr (a b : Json) (hp : a.get? "protected" = b.get? "protected")
+    (hu : a.get? "unprotected" = b.get? "unprotected") (r : Option Json) : jweHdr a r = jweHdr b r := by
+  simp only [jweHdr, protectedObj, hp, hu]
+
+/-- encoding the protected header does not change the merged header (JSON layer's load∘dump law) -/
+theorem jweHdr_after_encode (j0 j : Json) (he : encodeProtected j0 = some j)
+    (hload : ∀ p, j0.get? "protected" = some (.obj p) → LoadDump p) (r : Option Json) :
+    jweHdr j r = jweHdr j0 r := by
+  cases j0 with
+  | obj kvs =>
+    simp only [encodeProtected] at he
+    cases hp : lookup "protected" kvs with
+    | none => simp only [hp, Option.some.injEq] at he; subst he; rfl
+    | some pv =>
+      cases pv with
+      | str t => simp only [hp, Option.some.injEq] at he; subst he; rfl
+      | obj p =>
+        simp only [hp, Option.some.injEq] at he
+        subst he
+        have hl := hload p (by simp [get?, hp])
+        simp only [LoadDump, B64.enc] at hl
+        simp only [jweHdr, protectedObj, get?, lookup_setKV_same, B64.enc, hl, hp,
+          lookup_setKV_other "protected" "unprotected" _ kvs (by decide)]
+      | _ => simp [hp] at he
+  | _ => simp [encodeProtected] at he
+
+
+theorem findEncr_name (n : String) (a : AlgRec) (h : findEncr n = some a) : a.name = n := by
+  simp only [findEncr] at h
+  have := List.find?_some h
+  simpa using this
+
+/-- what `{s?{s?s}}` on a header member yields -/
+def subEnc (kvs : List (String × Json)) (m : String) : Option (Option String) :=
+  match lookup m kvs with
+  | none => some none
+  | some (.obj o) => optStr (.obj o) "enc"
+  | some _ => none
+
+theorem names_enc_of_sub (kvs : List (String × Json)) (hu hp : Option String) (name : String)
+    (hn : (match hp with | some x => some x | none => hu) = some name)
+    (hsu : subEnc kvs "unprotected" = some hu) (hsp : subEnc kvs "protected" = some hp) : NamesEnc (.obj kvs) name := by
+  simp only [subEnc] at hsu hsp
+  simp only [NamesEnc, jweHdr, protectedObj, get?, Option.bind_none]
+  cases hpl : lookup "protected" kvs with
+  | none =>
+    simp only [hpl, Option.some.injEq] at hsp
+    subst hsp
+    simp only at hn
+    subst hn
+    cases hul : lookup "unprotected" kvs with
+    | none => simp [hul] at hsu
+    | some uv =>
+      cases uv with
+      | obj u =>
+        simp only [hul, optStr] at hsu
+        cases hue : lookup "enc" u with
+        | none => simp [hue] at hsu
+        | some ev =>
+          cases ev with
+          | str sv =>
+            simp only [hue, Option.some.injEq] at hsu
+            exact ⟨_, rfl, by simp [getStr?, get?, lookup_updateMissingKV, lookup, hue, strVal?, hsu]⟩
+          | _ => simp [hue] at hsu
+      | _ => simp [hul] at hsu
+  | some pv =>
+    cases pv with
+    | obj p =>
+      simp only [hpl, optStr] at hsp
+      cases hpe : lookup "enc" p with
+      | none =>
+        simp only [hpe, Option.some.injEq] at hsp
+        subst hsp
+        simp only at hn
+        subst hn
+        cases hul : lookup "unprotected" kvs with
+        | none => simp [hul] at hsu
+        | some uv =>
+          cases uv with
+          | obj u =>
+            simp only [hul, optStr] at hsu
+            cases hue : lookup "enc" u with
+            | none => simp [hue] at hsu
+            | some ev =>
+              cases ev with
+              | str sv =>
+                simp only [hue, Option.some.injEq] at hsu
+                exact ⟨_, rfl, by simp [getStr?, get?, lookup_updateMissingKV, hpe, hue, strVal?, hsu]⟩
+              | _ => simp [hue] at hsu
+          | _ => simp [hul] at hsu
+      | some ev =>
+        cases ev with
+        | str sv =>
+          simp only [hpe, Option.some.injEq] at hsp
+          subst hsp
+          simp only [Option.some.injEq] at hn
+          subst hn
+          cases hul : lookup "unprotected" kvs with
+          | none => exact ⟨_, rfl, by simp [getStr?, get?, hpe, strVal?]⟩
+          | some uv =>
+            cases uv with
+            | obj u => exact ⟨_, rfl, by simp [getStr?, get?, lookup_updateMissingKV, hpe, strVal?]⟩
+            | _ => simp [hul] at hsu
+        | _ => simp [hpe] at hsp
+    | _ => simp [hpl] at hsp
+
+theorem names_enc_after_set (kvs : List (String × Json)) (hu hp : Option String) (n : String) (j0 : Json)
+    (hsu : subEnc kvs "unprotected" = some hu) (hsp : subEnc kvs "protected" = some hp)
+    (hs : jweHdrSetNew (.obj kvs) "enc" (some (.str n)) = some j0) : NamesEnc j0 n := by
+  simp only [subEnc] at hsu hsp
+  simp only [jweHdrSetNew] at hs
+  cases hpl : lookup "protected" kvs with
+  | none =>
+    cases hul : lookup "unprotected" kvs with
+    | none =>
+      simp only [hpl, hul, Bool.not_true, Bool.or_self, Bool.false_eq_true, if_false, Option.some.injEq] at hs
+      subst hs
+      exact ⟨_, by simp [jweHdr, protectedObj, get?, lookup_setKV_same, lookup_setKV_other "protected" "unprotected" _ kvs (by decide), hul]; rfl,
+        by simp [getStr?, get?, lookup, strVal?]⟩
+    | some uv =>
+      cases uv with
+      | obj u =>
+        simp only [hpl, hul, Bool.not_true, Bool.or_self, Bool.false_eq_true, if_false, Option.some.injEq] at hs
+        subst hs
+        refine ⟨.obj (updateMissingKV [] (setKV "enc" (.str n) u)), ?_, ?_⟩
+        · simp [jweHdr, protectedObj, get?, lookup_setKV_same, lookup_setKV_other "unprotected" "protected" _ kvs (by decide), hpl]
+        · simp [getStr?, get?, lookup_updateMissingKV, lookup, lookup_setKV_same, strVal?]
+      | _ => simp [hul] at hsu
+  | some pv =>
+    cases pv with
+    | obj p =>
+      cases hul : lookup "unprotected" kvs with
+      | none =>
+        simp only [hpl, hul, Bool.not_true, Bool.or_self, Bool.false_eq_true, if_false, Option.some.injEq] at hs
+        subst hs
+        exact ⟨_, by simp [jweHdr, protectedObj, get?, lookup_setKV_same, lookup_setKV_other "protected" "unprotected" _ kvs (by decide), hul]; rfl,
+          by simp [getStr?, get?, lookup_setKV_same, strVal?]⟩
+      | some uv =>
+        cases uv with
+        | obj u =>
+          simp only [hpl, hul, Bool.not_true, Bool.or_self, Bool.false_eq_true, if_false, Option.some.injEq] at hs
+          subst hs
+          refine ⟨.obj (updateMissingKV (setKV "enc" (.str n) p) u), ?_, ?_⟩
+          · simp [jweHdr, protectedObj, get?, lookup_setKV_same, lookup_setKV_other "protected" "unprotected" _ kvs (by decide), hul]
+          · simp [getStr?, get?, lookup_updateMissingKV, lookup_setKV_same, strVal?]
+        | _ => simp [hul] at hsu
+    | _ => simp [hpl] at hsp
+
+/-- **C15 (JWE, applied = recorded).**  When `jose_jwe_enc_cek_io` goes ahead with content encryption
+    `a`, the merged header of the object it leaves behind names exactly `a`: taken from the protected
+    header if that names one, else from the shared unprotected header, else from the CEK's `alg`, else
+    suggested from the CEK — and in the last two cases *written* into the protected header (or, if there
+    is only a shared header, into that) before the protected header is encoded. -/
+theorem jwe_enc_applied_is_recorded (jwe cek : Json) (a : AlgRec) (j : Json)
+    (h : encCekSetup jwe cek = some (a, j))
+    (hload : ∀ j0 p, encodeProtected j0 = some j → j0.get? "protected" = some (.obj p) → LoadDump p) :
+    NamesEnc j a.name ∧ findEncr a.name = some a := by
+  cases jwe with
+  | obj kvs =>
+    simp only [encCekSetup] at h
+    split at h
+    · rename_i hu hp k hsu hsp hk
+      simp only [Option.bind_eq_some_iff] at h
+      obtain ⟨⟨a0, j0⟩, hr, hrest⟩ := h
+      have hsu' : subEnc kvs "unprotected" = some hu := hsu
+      have hsp' : subEnc kvs "protected" = some hp := hsp
+      split at hrest
+      · simp at hrest
+      · simp only [Option.map_eq_some_iff, Prod.mk.injEq] at hrest
+        obtain ⟨j', he, rfl, rfl⟩ := hrest
+        have hne0 : NamesEnc j0 a0.name ∧ findEncr a0.name = some a0 := by
+          split at hr
+          · -- nothing named: suggestion, recorded
+            split at hr
+            · simp at hr
+            · rename_i name _
+              split at hr
+              · rename_i a1 hf
+                simp only [Option.map_eq_some_iff, Prod.mk.injEq] at hr
+                obtain ⟨jj, hs, rfl, rfl⟩ := hr
+                have hn := findEncr_name name a1 hf
+                exact ⟨names_enc_after_set kvs hu hp a1.name jj hsu' hsp' hs, by rw [hn]; exact hf⟩
+              · simp at hr
+          · rename_i name hn
+            have hr' : Option.map (fun a => (a, Json.obj kvs)) (findEncr name) = some (a0, j0) := by
+              cases k with
+              | none => simpa using hr
+              | some kk =>
+                by_cases hc : kk = name
+                · subst hc; simpa using hr
+                · simp [hc] at hr
+            simp only [Option.map_eq_some_iff, Prod.mk.injEq] at hr'
+            obtain ⟨a1, hf, rfl, rfl⟩ := hr'
+            have hnm := findEncr_name name a1 hf
+            exact ⟨by rw [hnm]; exact names_enc_of_sub kvs hu hp name hn hsu' hsp', by rw [hnm]; exact hf⟩
+        obtain ⟨⟨hdr, hh, hg⟩, hf⟩ := hne0
+        refine ⟨⟨hdr, ?_, hg⟩, hf⟩
+        rw [jweHdr_after_encode j0 j' he (fun p hp => hload j0 p he hp) none]
+        exact hh
+    · simp at h
+  | _ => simp [encCekSetup] at h
+
+
+
+/-- non-vacuity: a template naming A128GCM in the protected header and a 16-byte CEK is accepted -/
+example : (encCekSetup (.obj [("protected", .obj [("enc", .str "A128GCM")])])
+    (.obj [("kty", .str "oct"), ("k", .str "AAAAAAAAAAAAAAAAAAAAAA")])).isSome = true := by decide +kernel
 
 /-- non-vacuity -/
 example : jwsHdr (.obj [("protected", .obj [("alg", .str "P")]), ("header", .obj [("alg", .str "H"), ("kid", .int 1)])])
